@@ -208,6 +208,30 @@ func loadKnown() []Known {
 	return out
 }
 
+// sameFinding: a listed finding is identified by rule, plugin and what fails (the normalised failing construct). Keys of
+// residual rules also name the generator function that printed the offending text (rule|plugin|pkg.(*gen).fn|what): that
+// component is a hint for the reader, not part of the identity — splitting or renaming a generator function does not make
+// a known defect a new one.
+func sameFinding(known, got string) bool {
+	if known == got {
+		return true
+	}
+	a, b := strings.Split(known, "|"), strings.Split(got, "|")
+	if len(a) != len(b) || len(a) < 4 {
+		return false
+	}
+	isFn := func(s string) bool { return strings.Contains(s, ".(") || strings.Contains(s, ".gen") }
+	if !isFn(a[2]) || !isFn(b[2]) {
+		return false
+	}
+	for i := range a {
+		if i != 2 && a[i] != b[i] {
+			return false
+		}
+	}
+	return true
+}
+
 // finish writes evidence, prints KNOWN-FINDING / VIOLATION lines and returns the exit code.
 func (r *Report) finish(explanation string, assumptions []string, technique string) int {
 	known := loadKnown()
@@ -217,9 +241,18 @@ func (r *Report) finish(explanation string, assumptions []string, technique stri
 	for _, f := range r.Findings {
 		matched := false
 		for _, k := range known {
-			if k.Status == "known" && k.Property == f.Property && k.Key == f.Key {
+			if k.Status == "known" && k.Property == f.Property && sameFinding(k.Key, f.Key) {
 				matched = true
-				knownHit = append(knownHit, k)
+				// one KNOWN-FINDING line per listed finding, however many generator functions print the offending text
+				dup := false
+				for _, h := range knownHit {
+					if h.Key == k.Key {
+						dup = true
+					}
+				}
+				if !dup {
+					knownHit = append(knownHit, k)
+				}
 				break
 			}
 		}
